@@ -1107,7 +1107,24 @@ impl<'a> Sess<'a> {
         }
         if let Some(o) = &mut self.out_unsol {
             let el = now.saturating_sub(o.t_tx);
-            if el > CONFIRM_TIMEOUT {
+            if el > CONFIRM_TIMEOUT && el <= 4 * CONFIRM_TIMEOUT {
+                // the confirm timeout has passed. Nothing says that the wait cannot have been prolonged by what the
+                // outstation did in the meantime (a solicited reply sent from inside the wait, say): until something shows
+                // which - a retry: it goes on; a new response or the answer to a deferred READ: it ended - or four timeouts
+                // have passed, the series may be over (since the timeout) or not
+                if o.maybe_cancelled_at.is_none() {
+                    o.maybe_cancelled_at = Some(o.t_tx + CONFIRM_TIMEOUT);
+                    label(&mut self.f, "unsol_wait_past_its_timeout");
+                }
+                o.uncertain = true;
+                if !o.is_null {
+                    // the retry delay counts from the end of the series, wherever in that window it was
+                    let until = o.t_tx + 4 * CONFIRM_TIMEOUT + RETRY_DELAY;
+                    if self.delay_uncertain_until.map(|x| x < until).unwrap_or(true) {
+                        self.delay_uncertain_until = Some(until);
+                    }
+                }
+            } else if el > CONFIRM_TIMEOUT {
                 if !self.frags[o.frag].ids.is_empty() {
                     self.unconfirmed_carrier_seen = true;
                     self.unsol_series_failed = true;
@@ -1188,7 +1205,10 @@ impl<'a> Sess<'a> {
         };
         if confirmed.is_none() && last.is_some() && last != Some(seq & 0x0F) {
             if self.broadcast_pending == Some(1) && self.broadcast_reported {
-                label(&mut self.f, "stray_confirm_while_mandatory_broadcast_reported");
+                label(
+                    &mut self.f,
+                    "stray_confirm_while_mandatory_broadcast_reported",
+                );
             }
             return;
         }
@@ -1199,13 +1219,19 @@ impl<'a> Sess<'a> {
             let since = self.broadcast_since_frag;
             let reported_it = |frag: usize| {
                 frag >= since
-                    && self.frags[frag].bytes.get(2).map(|b| b & iin1::BROADCAST != 0)
+                    && self.frags[frag]
+                        .bytes
+                        .get(2)
+                        .map(|b| b & iin1::BROADCAST != 0)
                         == Some(true)
             };
             match confirmed {
                 Some((frag, false)) if !reported_it(frag) => {
                     self.broadcast_uncertain = true;
-                    label(&mut self.f, "confirmation_of_a_response_that_did_not_report_the_broadcast");
+                    label(
+                        &mut self.f,
+                        "confirmation_of_a_response_that_did_not_report_the_broadcast",
+                    );
                 }
                 Some((_, false)) => {
                     // an accepted confirmation ends a confirm-mandatory broadcast indication
